@@ -25,7 +25,7 @@ use crate::Args;
 
 /// The model the observations are compared with: `run_sacase` is the code as it is in /repo;
 /// switch to `run_sacase_fixed` (and bin/props.py `run_fn`) once proposed_fix_c16.diff is applied.
-const RUN_FN: &str = "run_sacase";
+const RUN_FN: &str = "run_sacase_fixed";
 
 const H7: &str = "unix-path-readback-nul";
 const H8: &str = "unix-abstract-padded";
